@@ -76,7 +76,19 @@ def template_event(sess):
             allnan = allnan and all(bool(np.isnan(x)) for x in v.values())
         else:
             allnan = allnan and bool(np.isnan(v))
-    return {"e": "template", "keys": keys, "funcs": funcs, "shocks": shocks, "allnan": allnan}
+    from lcm.input_processing import process_model
+
+    pm = process_model(sess.model)
+    vi, fi = pm.variable_info, pm.function_info
+
+    def kind(n):
+        r = fi.loc[n]
+        return "filter" if r["is_filter"] else "constraint" if r["is_constraint"] else "next" if r["is_next"] else "other"
+
+    return {"e": "template", "keys": keys, "funcs": funcs, "shocks": shocks, "allnan": allnan,
+            "canon": [str(x) for x in vi.index], "sparse": [str(x) for x in vi.query("is_sparse").index],
+            "aux": [str(x) for x in vi.query("is_auxiliary").index], "stochastic": [str(x) for x in vi.query("is_stochastic").index],
+            "fkinds": {str(n): kind(n) for n in fi.index}}
 
 
 def solve_event(sess, step, store):
